@@ -20,7 +20,7 @@ def run(sid):
         a = subprocess.run(["git", "-C", r, "apply", os.path.join(d, "patch.diff")], stdout=subprocess.PIPE, stderr=subprocess.STDOUT, text=True)
         if a.returncode != 0:
             return sid, "PATCH-DOES-NOT-APPLY", a.stdout[-200:]
-        shutil.copytree("/verif", v, ignore=shutil.ignore_patterns(".git", ".work", "seeded", "evidence"), symlinks=True)
+        shutil.copytree("/verif", v, ignore=shutil.ignore_patterns(".git", ".work", "seeded", "evidence", "incremental"), symlinks=True)
         os.makedirs(os.path.join(v, "evidence"), exist_ok=True)
         for p in props:
             c = subprocess.run(["./check", p], cwd=v, env=dict(os.environ, VERIF_REPO=r), stdout=subprocess.PIPE, stderr=subprocess.PIPE, text=True)
